@@ -114,3 +114,49 @@ def case_gen_text():
 
 def write_case_gen():
     return coq.write_gen("CaseGen", case_gen_text())
+
+
+def c11_gen_text():
+    """Gen/C11Gen.v: template lists, option constants, kwlist and the literals of the modelled functions."""
+    G = "gapic/generator/generator.py"
+    consts = {
+        "get_filename_consts": string_constants(find_function(G, "Generator._get_filename")),
+        "render_template_consts": [c for c in string_constants(find_function(G, "Generator._render_template")) if len(c) < 40],
+        "desired_transport_consts": string_constants(find_function(G, "Generator._is_desired_transport")),
+        "get_file_consts": string_constants(find_function(G, "Generator._get_file")),
+        "get_response_consts": string_constants(find_function(G, "Generator.get_response")),
+        "naming_build_consts": [c for c in string_constants(find_function("gapic/schema/naming.py", "Naming.build")) if len(c) < 90],
+        "options_build_consts": [c for c in string_constants(find_function("gapic/utils/options.py", "Options.build")) if len(c) < 40],
+        "generate_consts": string_constants(find_function("gapic/cli/generate.py", "generate")),
+    }
+    build = find_function("gapic/schema/api.py", "API.build")
+    extra = None
+    for n in ast.walk(build):
+        if isinstance(n, ast.Assign) and len(n.targets) == 1 and isinstance(n.targets[0], ast.Name) and n.targets[0].id == "invalid_module_names":
+            sets = [x for x in ast.walk(n.value) if isinstance(x, ast.Set)]
+            if len(sets) == 1:
+                extra = [ast.literal_eval(e) for e in sets[0].elts]
+    if extra is None:
+        raise ExtractError("API.build: invalid_module_names not found")
+    # the file_to_generate test of API.build: <x>.package.startswith(package)
+    ftg = [ast.unparse(k.value) for n in ast.walk(build) if isinstance(n, ast.Call) for k in n.keywords if k.arg == "file_to_generate"]
+    sample_name = module_assign("gapic/samplegen/samplegen.py", "DEFAULT_TEMPLATE_NAME")
+    flags = sorted(module_assign("gapic/utils/options.py", "OPT_FLAGS", "Options"))
+    prefix = module_assign("gapic/utils/options.py", "PYTHON_GAPIC_PREFIX", "Options")
+    lines = ["(* regenerated from /repo on every run (T0): template trees, option constants, literals of the modelled functions *)",
+             "From GV Require Import Base.Str.",
+             f"Definition default_templates : list string := {coq.slist(list_templates('templates'))}.",
+             f"Definition ads_templates : list string := {coq.slist(list_templates('ads-templates'))}.",
+             f"Definition opt_flags : list string := {coq.slist(flags)}.",
+             f"Definition gapic_prefix : string := {coq.s(prefix)}.",
+             f"Definition kwlist : list string := {coq.slist(interpreter_kwlist())}.",
+             f"Definition sample_template_name : string := {coq.s(sample_name)}.",
+             f"Definition invalid_module_extra : list string := {coq.slist(sorted(extra))}.",
+             f"Definition file_to_generate_exprs : list string := {coq.slist(ftg)}."]
+    for k, v in consts.items():
+        lines.append(f"Definition {k} : list string := {coq.slist(v)}.")
+    return "\n".join(lines) + "\n"
+
+
+def write_c11_gen():
+    return coq.write_gen("C11Gen", c11_gen_text())
